@@ -50,7 +50,7 @@ CLAIMED = {
  "C09": dict(
    text="Machine-checked proof (Coq, world Q, axiom-free) about the executable model of compute_bias (model/Bias.v on top of model/Binning.v): every output row is the definition applied to the rows of its group "
         "(weighted mean of V, count, weight sum, Bessel-corrected stderr^2, t^2 and degrees of freedom), counts and weights sum to the totals, weight-averaged group means equal the overall mean, "
-        "null values keep their own (first) group, the whole table is invariant under permutation of the rows, and head(n_bins) never drops a group. Tie: correspondence with the real compute_bias "
+        "null values keep their own (first) group, the whole table is invariant under permutation of the RAW rows (binning included: compute_bias_perm_full, every feature type and method), and head(n_bins) never drops a group. Tie: correspondence with the real compute_bias "
         "over feature types x 10 bin methods x functionals x weights x 1-3 models, compared inside Coq.",
    note="Partial: the polars group_by/window engine is not modelled (its meaning is tied by correspondence only); sqrt and the Student-t CDF are not rational: stderr is compared squared and p_value against "
         "2*scipy.special.stdtr(df, -sqrt(t^2)) computed from the model's pieces; 'identical on repeated calls' is observed (two calls compared). Known finding: features whose only non-null values are infinite (see C13).",
